@@ -54,6 +54,38 @@ ASSERTIONS = ["bm25:defaultParams", "bm25:params-literal", "constants:typecheck"
     "fuzzy-normalisation", "fuzzy-clamp", "legacy-default-limit", "legacy-shape", "sortAndLimitResults-shape", "recovery-scores",
     "recovery-order", "cli-recovery-truncated", "cli-recovery-filtered", "FilterResults-shape", "config-max-results", "validate-limit")]
 
+# ---- legacy entry points with the scorer modelled (Props/C01b.lean; correspondence domain legacy2) ----
+THEOREMS += ["Wtf.C01." + t for t in (
+    "legacy_literals", "legacy_limits_in_force", "legacy_score_nonneg", "legacy_score_parts_nonneg", "legacy_score_can_be_negative",
+    "legacy_pipeline_modelled", "search_with_options", "combine_results", "combine_exact_first", "search_with_fuzzy",
+    "search_with_nlp_off", "search_with_nlp_shared_partial", "tfidf_model_rank_ok", "search_with_nlp_temporary_partial",
+    "search_with_nlp_duplicate", "suggestions", "suggestion_words_deterministic")]
+
+LEGACY2_SHAPES = ("SearchWithOptions", "SearchWithPipelineOptions", "sortAndLimitResults", "isPipelineCommand", "db.calculateCommandScore",
+                  "calculateWordScore", "calculateCommandScore", "calculateDomainScore", "calculateKeywordScore", "calculateDescriptionScore",
+                  "calculateTagScore", "calculateScore", "finiteScore", "isDomainSpecificMatch", "getCategoryRelevanceBoost", "SearchWithFuzzy",
+                  "limitResults", "performFuzzySearch", "combineAndDeduplicateResults", "GetSuggestions", "isCommonWord", "SearchWithNLP",
+                  "isCrossPlatformTool")
+LEGACY2_VALUES = ("crossPlatformPenalty", "cmdExact", "cmdPrefix", "cmdWord", "cmdContains", "domainScore", "keywordExact", "keywordPartial",
+                  "descWord", "descPartial", "tagExact", "tagPartial", "completenessBase", "completenessWeight", "directThreshold", "directBonus",
+                  "commandThreshold", "commandBonus", "nicheBase", "nicheFactor", "categoryInit", "goodExactThreshold", "fuzzyBaseA", "fuzzyBaseB",
+                  "fuzzyDiscount", "similarityScale", "fallbackPriority")
+LEGACY2_HELPERS = ("getCompressionBoost", "getZipBoost", "getTarBoost", "getDirectoryBoost", "getCreateBoost", "getNewBoost", "getSearchBoost",
+                   "getDownloadBoost")
+LEGACY2_ASSERTIONS = (["legacyscore:" + s for s in ("constants", "parse", "category-switch:func", "category-switch", "tfidf-search-tail",
+                                                     "domain-table", "common-words", "trim-cutsets")]
+                      + ["legacyscore:shape:" + s for s in LEGACY2_SHAPES] + ["legacyscore:value:" + s for s in LEGACY2_VALUES]
+                      + ["legacyscore:category-helper:" + s for s in LEGACY2_HELPERS])
+ASSERTIONS += LEGACY2_ASSERTIONS
+
+
+def legacy2_stages(ctx, quick, hit_props=None):
+    """SearchWithPipelineOptions / SearchWithOptions / SearchWithFuzzy / SearchWithNLP / GetSuggestions and the legacy scorer piece by
+    piece against Model/LegacyScore.lean + Model/LegacyEntry.lean; `overflow`: hundreds of repetitions of a category word."""
+    ctx.correspond("legacy2", 400 if quick else 8000, nontrivial=nontrivial, shrink=False, seed_offset=21, hit_props=hit_props)
+    ctx.correspond("legacy2", 30 if quick else 400, name="legacy2-overflow", args={"stream": "overflow"}, nontrivial=nontrivial,
+                   shrink=False, seed_offset=23, hit_props=hit_props)
+
 
 def nontrivial(tags, ops, impl):
     return tags.get("nonempty", 0) > 0
@@ -88,7 +120,7 @@ def shipped(ctx, n):
 
 def run(ctx):
     ctx.stage_xlate(required_assertions=ASSERTIONS)
-    ctx.stage_prove(THEOREMS)
+    ctx.stage_prove(THEOREMS, extra_targets=["WtfModel.Props.C01b"])
     if not ctx.stage_build():
         return
     quick = ctx.tier == "quick"
@@ -102,6 +134,7 @@ def run(ctx):
         os.environ["WTF_BIN"] = wtf
         ctx.correspond("legacy", 40 if quick else 1500, name="legacy-cli", args={"stream": "cli"}, nontrivial=nontrivial, shrink=False, seed_offset=9)
     shipped(ctx, 40 if quick else 1500)
+    legacy2_stages(ctx, quick)
 
 
 def replay(ctx, rep):
